@@ -95,9 +95,19 @@ where
             // before we can do anything else.
             if buffered_req.is_some() && server.is_some() {
                 let si = &mut server.as_mut().as_pin_mut().unwrap().0;
-                // Unwrapping is safe as the underlying sink is guaranteed not to error
-                ready!(si.poll_ready_unpin(cx)).unwrap();
-                si.start_send_unpin(buffered_req.take().unwrap()).unwrap();
+                match ready!(si.poll_ready_unpin(cx)) {
+                    Ok(()) => {
+                        if let Err(e) = si.start_send_unpin(buffered_req.take().unwrap()) {
+                            warn!("Unbinding replier after sink error: {e:?}");
+                            *server = None;
+                        }
+                    }
+                    // A broken replier is unbound so that another one can bind
+                    Err(e) => {
+                        warn!("Unbinding replier after sink error: {e:?}");
+                        *server = None;
+                    }
+                }
             }
 
             // If we've got an error buffered already, we need to write it to the client
@@ -198,7 +208,9 @@ where
                     // Server has finished
                     Poll::Ready(None) => {
                         let si = &mut server.as_mut().as_pin_mut().unwrap().0;
-                        ready!(si.poll_flush_unpin(cx)).unwrap();
+                        if let Err(e) = ready!(si.poll_flush_unpin(cx)) {
+                            warn!("Could not flush departing replier: {e:?}");
+                        }
                         ready!(sink.as_mut().poll_flush(cx)).unwrap();
                         *server = None;
                     }
@@ -246,7 +258,10 @@ where
 
                     if server.is_some() {
                         let si = &mut server.as_mut().as_pin_mut().unwrap().0;
-                        ready!(si.poll_flush_unpin(cx)).unwrap();
+                        if let Err(e) = ready!(si.poll_flush_unpin(cx)) {
+                            warn!("Unbinding replier after sink error: {e:?}");
+                            *server = None;
+                        }
                     }
 
                     // No requestor streams: new ones arrive through the handle
@@ -264,7 +279,10 @@ where
 
                 if server.is_some() {
                     let si = &mut server.as_mut().as_pin_mut().unwrap().0;
-                    ready!(si.poll_flush_unpin(cx)).unwrap();
+                    if let Err(e) = ready!(si.poll_flush_unpin(cx)) {
+                        warn!("Unbinding replier after sink error: {e:?}");
+                        *server = None;
+                    }
                 }
 
                 return Poll::Pending;
